@@ -237,7 +237,7 @@ func (c *evalCtx) eval1(e *Expr) (tval, error) {
 		default:
 			et := x.ty.Underlying().(*types.Slice).Elem()
 			sz := int64(w.sizeOf(et))
-			return tval{t: MkSlice(MkLoc(Obj(SPtr(x.t)), Add(Off(SPtr(x.t)), Mul(lo, IntLit(sz)))), Sub(hi, lo), Sub(SCap(x.t), lo)), ty: x.ty}, nil
+			return tval{t: MkSlice(Elem(SPtr(x.t), Mul(lo, IntLit(sz))), Sub(hi, lo), Sub(SCap(x.t), lo)), ty: x.ty}, nil
 		}
 	case "un":
 		x, err := c.eval(e.Args[0])
@@ -409,7 +409,7 @@ func (c *evalCtx) index(x, i tval) (tval, error) {
 		if sz != 1 {
 			off = Mul(i.t, IntLit(sz))
 		}
-		a := MkLoc(Obj(SPtr(x.t)), Add(Off(SPtr(x.t)), off))
+		a := Elem(SPtr(x.t), off)
 		if isComposite(xt.Elem()) {
 			return tval{t: a, ty: xt.Elem(), addr: true}, nil
 		}
